@@ -325,13 +325,14 @@ impl Property for C15 {
     }
     fn classes(&self) -> Vec<ClassSpec> {
         let mut v: Vec<ClassSpec> = SUITES.iter().map(|s| cls(s, 400, 20_000)).collect();
-        v.push(cls("large_groups", 0, 40));
+        v.push(cls("large_groups", 40, 400));
         v.push(cls("max_group_65535", 0, 1));
         v
     }
     fn strategy(&self, class: usize) -> BoxedStrategy<Case> {
         let tn: BoxedStrategy<(u16, u16)> = match class {
-            5 => (2u16..13, 13u16..300).prop_map(|(t, n)| (t, n.max(t))).boxed(),
+            // identifiers above 255 (two significant bytes) and above 256*k matter for the ordering of identifiers
+            5 => (2u16..13, prop_oneof![1 => 13u16..256, 3 => 256u16..700, 1 => 700u16..3000]).prop_map(|(t, n)| (t, n.max(t))).boxed(),
             6 => Just((2u16, 65535u16)).boxed(),
             _ => (2u16..7).prop_flat_map(|t| (Just(t), t..13)).boxed(),
         };
